@@ -1,7 +1,7 @@
 #!/bin/bash
 # tools/verify_seed.sh <agent worktree> <i> <PROP> : confirm a seeded change (tests pass, demo fails with / passes without),
 # then store it under /verif/seeded/<PROP>_<i>/ .  Uses a fresh scratch worktree, removed afterwards.
-WT="$1"; I="$2"; PROP="$3"
+WT="$1"; I="$2"; PROP="$3"; OUTI="${4:-$2}"
 SRC="$WT/seeded_out"
 [ -f "$SRC/change$I.diff" ] || { echo "no change$I.diff"; exit 2; }
 V=/tmp/vs_${PROP}_$I
@@ -15,7 +15,7 @@ tests=$(PYTHONPATH="$V" /venv/bin/python -m pytest -q -p no:cacheprovider --time
 mut=$(PYTHONPATH="$V" timeout 120 /venv/bin/python "$SRC/demo$I.py" >/tmp/vs_mut.out 2>&1; echo $?)
 echo "$PROP/$I: clean demo exit=$clean ; tests: $tests ; mutated demo exit=$mut"
 if [ "$clean" = 0 ] && [ "$mut" = 1 ] && echo "$tests" | grep -q "251 passed" ; then
-  D=/verif/seeded/${PROP}_$I; mkdir -p "$D"
+  D=/verif/seeded/${PROP}_$OUTI; mkdir -p "$D"
   cp "$SRC/change$I.diff" "$D/patch.diff"; cp "$SRC/demo$I.py" "$D/demo.py"; cp "$SRC/note$I.txt" "$D/note.txt"
   python3 - "$D" "$PROP" "$tests" "$(git -C "$WT" rev-parse HEAD)" <<'PY'
 import json,sys
